@@ -20,17 +20,19 @@ from props.base import corpus_for
 ID = 'C20'
 LEAN_MODULES = ['PybtexModel.Props.C20']
 THEOREMS = {
-    'C20_command_shape': 'a line is a command line exactly when it is `\\name{arg}tail` with name one of the four commands, arg newline-free and tail without `}`; the matcher returns that name and arg (= the spec classifier)',
+    'C20_command_shape': 'which lines are \\citation / \\bibstyle / \\bibdata / \\@input lines: the regular expression classifies every line as the specification does; a command line is `\\name{arg}tail` with arg ending at the LAST `}` of the line',
+    'C20_comma_lists': 'comma lists expanded: str.split(",") as the code performs it is the unique list of comma-free parts that joins back to the argument',
+    'C20_parse_spec': 'the parse of a closed document of any nesting depth is exactly its denotation (fatal error of the spec, or the spec\'s style, data, citations, reports)',
     'C20_citations_spec': 'reading yields exactly the keys of the \\citation lines in order, comma lists expanded, repeats kept, \\@input files read in place',
     'C20_style_data_spec': 'the style is the first \\bibstyle, the data the comma-separated first \\bibdata, over the in-place unfolding',
-    'C20_other_lines_ignored': 'every other line is ignored: deleting or inserting lines that are not one of the four commands changes neither citations, style, data, fatal error nor the kinds/files of the reports',
+    'C20_other_lines_ignored': 'every other line is ignored: deleting (or inserting) lines that are not one of the four commands changes neither citations, style, data, fatal error nor kind and file of any report (only line numbers shift)',
     'C20_reports_spec': 'the reports are exactly those of the specification, in order: nothing else is reported',
     'C20_duplicates_reported': 'a second \\bibstyle or \\bibdata is reported with the file and line of that line; the first value is kept',
-    'C20_case_mismatch_reported': 'a key cited in a spelling different from its most recent citation is reported with the file and line of that citation line',
-    'C20_context_after_input': 'reports made after returning from a nested file carry the outer file and the right line number',
-    'C20_missing_fatal': 'a document without \\bibdata, or without \\bibstyle, is a fatal error (raised, not reported)',
-    'C20_terminates_acyclic': 'fuel >= inclusion depth suffices: for acyclic inclusion the parse never runs out of fuel and its result does not depend on the fuel; a topological order of the files bounds the depth by the number of files',
-    'C20_no_internal_error': 'the parser never dereferences a missing context (no AttributeError)',
+    'C20_case_mismatch_reported': 'a key cited in a spelling different from its most recent citation is reported with the file and line of the citing line',
+    'C20_context_after_input': 'reports made after returning from nested files carry the outer file and the right line number and text',
+    'C20_missing_fatal': 'a document without \\bibdata, or without \\bibstyle, is a fatal error (raised, not reported); with both it parses',
+    'C20_terminates_acyclic': 'fuel >= inclusion depth suffices: for acyclic inclusion the parse never runs out of fuel and its result does not depend on the fuel; a topological order of the files bounds the depth by the number of files + 1',
+    'C20_no_internal_error': 'on every file system, cyclic or not, the parser never dereferences a missing context (no AttributeError) and returns with a context set',
 }
 RULE = ('ES: every top-level document of <=4 (quick) / <=5 (thorough) lines over a 13-line alphabet with a fixed two-level '
         'chain of nested files; every nested file of <=3 / <=4 lines inside 3 fixed frames; every third-level file of <=2 / <=3 lines; '
@@ -223,9 +225,15 @@ def oracle(case, impl_out, reply):
     if not spec['acyclic']:
         return fails      # outside the property (inclusion cycle); never generated
     if not spec['closed']:
-        # an included file does not exist: not a clause of C20 beyond "a pybtex error, not a crash"
+        # an included file does not exist: not a clause of C20 beyond "a pybtex error, not a crash";
+        # what was reported before the parse stopped must still be right (the spec reads on past the missing file)
         if fatal is None or fatal['kind'] != 'open':
             fails.append('missing_file: an \\@input file that cannot be opened must end in a pybtex I/O error, got %r' % (fatal,))
+        n = len(impl_out['errors'])
+        got = [(r['kind'], r.get('msg'), r['file'], r['lineno'], _ctx_text(r['ctx'])) for r in impl_out['errors'] if not _internal(r)]
+        want = [(w['kind'], w['msg'], w['file'], w['lineno'], w['text'] or None) for w in spec['errors'][:n]]
+        if len(got) == n and got != want:
+            fails.append('located: before the missing file was hit, reported %r, expected %r' % (got, want))
         return fails
     # fatal errors
     if spec['fatal'] is not None:
